@@ -33,7 +33,7 @@ META = {
     "technique": "Hypothesis over (server program, message) + enumeration of notification names; oracle = independent JSON-RPC grammar and documented error codes",
 }
 
-HANDLER_KINDS = ["str", "dict", "list", "int", "none", "object", "raise_value", "raise_runtime", "raise_key", "needs_arg", "nested_bad_json"]
+HANDLER_KINDS = ["str", "dict", "list", "int", "none", "object", "raise_value", "raise_runtime", "raise_key", "needs_arg", "nested_bad_json", "slow_str", "raise_slow"]
 
 
 def make_tool(kind: str):
@@ -58,6 +58,16 @@ def make_tool(kind: str):
             raise KeyError("k")
         if kind == "nested_bad_json":
             return {"s": {1, 2}}
+        if kind == "slow_str":
+            import asyncio as _a
+
+            await _a.sleep(0.02)
+            return "slow ok"
+        if kind == "raise_slow":
+            import asyncio as _a
+
+            await _a.sleep(0.02)
+            raise RuntimeError("slow boom")
         raise AssertionError(kind)
 
     async def needs(x: int):
@@ -105,6 +115,11 @@ def build_server(prog: Dict[str, Any]):
             async def handler(message, session_id):
                 if k == "raise":
                     raise RuntimeError("custom boom")
+                if k == "raise_slow":
+                    import asyncio as _a
+
+                    await _a.sleep(0.02)
+                    raise RuntimeError("custom slow boom")
                 if k == "answer":
                     mid = getattr(message, "id", None)
                     if mid is None:
@@ -160,7 +175,7 @@ def check(case: Dict[str, Any]) -> Outcome:
         "request" if is_req else "notification",
         "registered" if registered else "unregistered",
         f"how:{case.get('how', 'parse')}",
-    )
+    ) + (("overlapping-dispatch",) if case.get("overlap") else ())
     handler_kind = None
     params = case.get("params", "$absent")
     if method == "tools/call" and isinstance(params, dict):
@@ -188,8 +203,28 @@ def check(case: Dict[str, Any]) -> Outcome:
         out.nontrivial = False
         return out
 
+    overlap = case.get("overlap")
+
     async def go():
-        return await srv.protocol_handler.handle_message(msg, case.get("session"))
+        if not overlap:
+            return await srv.protocol_handler.handle_message(msg, case.get("session"))
+        # a second, unrelated message is dispatched on the same handler while this one is in flight
+        import asyncio as _a
+
+        _w2, msg2 = build_message(overlap)
+
+        async def other():
+            await _a.sleep(overlap.get("delay", 0.01))
+            try:
+                return await srv.protocol_handler.handle_message(msg2, None)
+            except Exception:
+                return None
+
+        t2 = _a.ensure_future(other())
+        try:
+            return await srv.protocol_handler.handle_message(msg, case.get("session"))
+        finally:
+            await t2
 
     try:
         ret = run_virtual(go)
@@ -248,6 +283,8 @@ def check(case: Dict[str, Any]) -> Outcome:
     if handler_kind is not None:
         base = handler_kind.split(":")[-1]
         raises = base.startswith("raise") or handler_kind in ("nested_bad_json",)
+        if base == "slow_str":
+            base = "str"
         if handler_kind == "needs_arg":
             args = params.get("arguments", {}) if isinstance(params, dict) else {}
             ok_args = isinstance(args, dict) and set(args.keys()) == {"x"} and isinstance(args["x"], (int, float)) and not isinstance(args["x"], bool)
@@ -292,7 +329,7 @@ _ids = st.one_of(
 def cases(draw):
     tools = draw(st.lists(st.sampled_from(HANDLER_KINDS), max_size=3))
     resources = draw(st.lists(st.sampled_from(["str", "none", "object", "raise"]), max_size=2))
-    custom = draw(st.lists(st.tuples(st.sampled_from(["x/custom", "notifications/cancelled", "notifications/progress", "y/other"]), st.sampled_from(["answer", "raise", "none", "answer_always"])).map(list), max_size=2, unique_by=lambda t: t[0]))
+    custom = draw(st.lists(st.tuples(st.sampled_from(["x/custom", "notifications/cancelled", "notifications/progress", "y/other"]), st.sampled_from(["answer", "raise", "none", "answer_always", "raise_slow"])).map(list), max_size=2, unique_by=lambda t: t[0]))
     prog = {"tools": tools, "resources": resources, "custom": custom}
     method = draw(st.one_of(
         st.sampled_from(["initialize", "ping", "tools/list", "tools/call", "resources/list", "resources/read", "tools/call", "resources/read"]),
@@ -323,6 +360,12 @@ def cases(draw):
         case["id"] = draw(_ids)
     if draw(st.integers(0, 3)) == 0:
         case["session"] = draw(st.sampled_from(["nope", ""]))
+    if draw(st.integers(0, 3)) == 0:
+        ov: Dict[str, Any] = {"method": draw(st.sampled_from(["ping", "tools/list", "nope", "notifications/cancelled", "tools/call"])), "params": {"name": "tool0", "arguments": {}},
+                              "how": draw(st.sampled_from(["parse", "unified", "specific"])), "delay": draw(st.sampled_from([0.0, 0.01, 0.03]))}
+        if draw(st.booleans()):
+            ov["id"] = draw(st.sampled_from(["other-id", 999, 0]))
+        case["overlap"] = ov
     return case
 
 
